@@ -352,6 +352,100 @@ func checkC13(c *Check) {
 	if nb < 2 {
 		c.Fail("C13-R4 lost instances: %d broadcasts", nb)
 	}
+	// ... and that context is still live when the close-bid is broadcast: its cancel function is called only by the
+	// monitor itself, at points from which the close-bid broadcast can no longer be reached (a deferred call counts);
+	// a goroutine or callback holding the cancel function can fire before the clean-up
+	var closeBid ssa.CallInstruction
+	for _, call := range callsInOwn(run) {
+		if calleeMethod(call) == "Broadcast" {
+			a := call.Common().Args
+			if strings.Contains(a[len(a)-1].Type().String(), "MsgCloseBid") || strings.Contains(Sym(a[len(a)-1]), "MsgCloseBid") {
+				closeBid = call
+			}
+		}
+	}
+	if closeBid == nil {
+		for _, h := range helpersOf(run) {
+			for _, call := range callsInOwn(h) {
+				if calleeMethod(call) == "Broadcast" && strings.Contains(Sym(call.Common().Args[len(call.Common().Args)-1]), "MsgCloseBid") {
+					if li, ok := liftTo(run, call).(ssa.CallInstruction); ok {
+						closeBid = li
+					}
+				}
+			}
+		}
+	}
+	if closeBid != nil {
+		eachInstr(run, func(i ssa.Instruction) {
+			ex, ok := i.(*ssa.Extract)
+			if !ok || ex.Index != 1 {
+				return
+			}
+			mk, ok := ex.Tuple.(*ssa.Call)
+			if !ok || !strings.HasPrefix(calleeFull(mk), "context.With") {
+				return
+			}
+			// uses of the cancel function (directly, or through the variable it is kept in)
+			var uses []ssa.Instruction
+			collect := func(v ssa.Value) {
+				for _, r := range *v.Referrers() {
+					uses = append(uses, r)
+				}
+			}
+			collect(ex)
+			for k := 0; k < len(uses); k++ {
+				if st, isS := uses[k].(*ssa.Store); isS && st.Val == ssa.Value(ex) {
+					if al, isA := st.Addr.(*ssa.Alloc); isA {
+						for _, r := range *al.Referrers() {
+							if ld, isLd := r.(*ssa.UnOp); isLd {
+								collect(ld)
+							} else if r != uses[k] {
+								uses = append(uses, r)
+							}
+						}
+					}
+				}
+			}
+			for _, u := range uses {
+				switch x := u.(type) {
+				case *ssa.Store, *ssa.DebugRef:
+				case *ssa.Defer:
+				case *ssa.Call:
+					if x.Call.Value == ssa.Value(ex) || isLoadOf(x.Call.Value, ex) {
+						c.Ob("R4", "the monitor's context is cancelled only after the close-bid was handed to the broadcaster", x.Pos(), !reachableFrom(x, closeBid), "cancel() can run before the close-bid broadcast: the broadcaster drops a transaction whose context is done, the bid stays open")
+					} else {
+						c.Ob("R4", "the monitor's cancel function stays with the monitor", x.Pos(), false, "cancel is handed to "+calleeFull(x)+": it can fire before the clean-up broadcast")
+					}
+				case *ssa.MakeClosure:
+					c.Ob("R4", "the monitor's cancel function stays with the monitor", x.Pos(), false, "a goroutine / callback holds the cancel function of the context the close-bid is broadcast under: it can fire before the clean-up")
+				case *ssa.Go:
+					c.Ob("R4", "the monitor's cancel function stays with the monitor", x.Pos(), false, "cancel is started as a goroutine")
+				}
+			}
+		})
+	}
+}
+
+// isLoadOf: v is a load of a variable whose only stored value is x.
+func isLoadOf(v ssa.Value, x ssa.Value) bool {
+	ld, ok := v.(*ssa.UnOp)
+	if !ok {
+		return false
+	}
+	al, ok := ld.X.(*ssa.Alloc)
+	if !ok {
+		return false
+	}
+	n, same := 0, true
+	for _, r := range *al.Referrers() {
+		if st, isS := r.(*ssa.Store); isS && st.Addr == ssa.Value(al) {
+			n++
+			if st.Val != x {
+				same = false
+			}
+		}
+	}
+	return n > 0 && same
 }
 
 // notFoundClassifier (R1): the text pattern that turns a failed existing-bid query into "no bid yet" must single out
